@@ -50,6 +50,10 @@ def tasks(ctx):
            pc.ppu_task("WriteLCDC", ["xinv", "inv"]), Task("ppu.New", "ppu.New", keep=keep_labels({"inv"}))]
     ts.append(scan_lemma("scan:only-ppu-opens-the-oam-bug-window", mode2_callers, ["oam/ppu (package scan)"]))
     ts.append(scan_lemma("scan:oam-api-users", oam_api_users, ["cpu/memory/ppu (package scan)"]))
+    # the bookkeeping of the mode-2 bug is applied once per executed machine cycle, after that cycle's accesses (never batched at
+    # the end of an instruction, never a cycle late): the ordering aspect of the opcode lemmas
+    import props.cpu_common as cc
+    ts += [cc.opcode_task("C17", ch, i) for i, ch in enumerate(cc.opcode_chunks(16))]
     return filter_tasks(ts)
 
 
